@@ -11,6 +11,9 @@ Decided:
             loops over range(1, n) (or range(n)) with the same n and stores row t each iteration;
  API        no np.sum(<generator>) (TypeError on NumPy 2) anywhere in the package.
 Not decided: finiteness in general (divisions by computed quantities), accuracy.
+Added after the seeding rounds (DESIGN.md 6.6-6.8):
+ DOMAIN-GUARD / COUNT.len / FEEDBACK.guard  interval bounds of sqrt/arccos arguments in the fully guarded estimators; one row per sample in the
+            integration mode (length analysis); the Madgwick gradient is formed only where norm(f) != 0 is a must-fact.
 """
 import ast
 LINT_EXTRA_FILES = ("ahrs/common/orientation.py",)      # acc2q / am2q / ecompass helpers the filters start from
